@@ -169,6 +169,25 @@ theorem step_segment (h : Pre e o) : StepOk e o (endStep cfg mss e o .segment) :
   · refine ⟨by rw [hrcv]; exact h.wfe.rcv, by rw [hsi.nxt]; exact wadd_lt _ _, ?_⟩
     rw [heq]; exact h.wfe.una
 
+theorem step_probe (h : Pre e o) : StepOk e o (endStep cfg mss e o .probe) := by
+  simp only [endStep]
+  split
+  rotate_left
+  · exact stepOk_refl h
+  rename_i hc
+  obtain ⟨b, f, k, hsi⟩ := h.send
+  obtain ⟨hsend, hseg⟩ := send_probe cfg.recvCap 0 hsi h.nwe h.wfe.rcv hc
+  have hg : SendGrow e { e with tcb := e.tcb.probed, out := e.out ++ [e.tcb.probeSeg cfg.recvCap 0] } :=
+    SendGrow.refl_of rfl rfl id
+  obtain ⟨rc, hri⟩ := h.recv
+  refine ⟨hg, ⟨b, f, k, hsend.congr ⟨rfl, rfl, rfl, rfl, rfl, rfl, rfl⟩ rfl rfl⟩, ?_,
+    ⟨rc, hri.congr_r ⟨rfl, rfl, rfl, rfl, id⟩ rfl⟩, ⟨h.wfe.rcv, h.wfe.nxt, h.wfe.una⟩⟩
+  intro sg hsg
+  simp only [List.mem_append, List.mem_singleton] at hsg
+  rcases hsg with hsg | rfl
+  · exact (h.wire sg hsg).congr_s hg
+  · exact hseg.congr_s hg
+
 theorem step_abort (h : Pre e o) (b : Bool) : StepOk e o { e with tcb := e.tcb.abort b } := by
   have hg : SendGrow e { e with tcb := e.tcb.abort b } := SendGrow.refl_of rfl rfl id
   obtain ⟨bs, f, k, hsi⟩ := h.send
@@ -283,6 +302,7 @@ theorem endStep_ok (h : Pre e o) (a : Act) (hnw' : NoWrap (endStep cfg mss e o a
   | shutdown => exact step_shutdown h
   | segment => exact step_segment h
   | retx a b => exact step_retx h a b
+  | probe => exact step_probe h
   | recv i => exact step_recv h i
   | abort b => simpa [endStep] using step_abort h b
   | emitCtl sg => exact step_emitCtl h sg
